@@ -124,6 +124,9 @@ enum {
     V_TWIN_GETTER,          /* a getter changed what the pipe does next */
     V_STALE_FLOW_DEF,       /* a buffer delivered under a flow definition that is no longer the pipe's current one */
     V_PID_FILTER,           /* ts_pid_filter let a packet of a PID through that is not enabled */
+    V_REQ_ROUTING,          /* a registered request is not lodged exactly once at the current output */
+    V_REQ_ANSWER,           /* an answer did not reach the requester once, with the value given */
+    V_REQ_AFTER_UNREGISTER, /* callback of a request invoked after it was unregistered */
 };
 
 static const char *class_name(int cls)
@@ -147,6 +150,9 @@ static const char *class_name(int cls)
     case V_TWIN_GETTER: return "getter_changed_behaviour";
     case V_STALE_FLOW_DEF: return "stale_flow_def";
     case V_PID_FILTER: return "pid_filter";
+    case V_REQ_ROUTING: return "request_routing";
+    case V_REQ_ANSWER: return "request_answer";
+    case V_REQ_AFTER_UNREGISTER: return "callback_after_unregister";
     default: return NULL;
     }
 }
@@ -164,12 +170,16 @@ enum {
     OP_OPTION,          /* a0 = which option of the pipe, a1 = value selector */
     OP_SINK_BLOCK,      /* a0 = sink, a1: 1 = hold what arrives and block the pump it came from, 0 = let go */
     OP_GETTER,          /* every getter the pipe answers */
+    OP_REQ_REGISTER,    /* a0 = request */
+    OP_REQ_UNREGISTER,  /* a0 = request */
+    OP_REQ_PROVIDE,     /* a0 = sink, a1 = value: the sink answers every sink-latency request lodged with it */
     OP__N
 };
 static const char *op_name(int code)
 {
     static const char *const n[] = { "?", "flow_def", "input", "run", "advance", "flush", "set_output", "sink_mode",
-                                     "attach", "release", "option", "sink_block", "getter" };
+                                     "attach", "release", "option", "sink_block", "getter", "req_register",
+                                     "req_unregister", "req_provide" };
     return code > 0 && code < OP__N ? n[code] : "?";
 }
 
@@ -243,8 +253,14 @@ static int type;
  * they only run in complete applications. */
 static uint64_t provide(void)
 {
+    /* (C12: a control command that ends with the pipe's own check returns the
+     * check's error - a manager is missing - although the command was carried
+     * out; only complete applications, where an error means "not taken") */
+    if (plan->cfg[CFG_PROP] == 12)
+        return 31;
     return (types[type].flags & F_TYPED) ? 31 : (uint64_t)plan->cfg[CFG_PROVIDE];
 }
+static bool req_overflow, has_no_output;
 static bool sim_violation_suppressed;
 static bool provider_failed;
 static bool checking(void) { return !sim_violation_class() && !sim_violation_suppressed; }
@@ -355,6 +371,8 @@ static struct sink {
     bool accepted;              /* accepted a flow definition since it was plugged */
     unsigned inputs, flow_defs, refused;
     uint64_t fd_hash;           /* of the flow definition accepted last */
+    struct urequest *lodged[8]; /* sink-latency requests registered here */
+    unsigned nlodged;
     bool blocking;              /* holds what arrives and blocks the pump it came from */
     struct uchain held, blockers;
 } sinks[NSINK];
@@ -552,6 +570,16 @@ static int sink_control(struct upipe *upipe, int command, va_list args)
         return UBASE_ERR_NONE;
     case UPIPE_REGISTER_REQUEST: {
         struct urequest *rq = va_arg(args, struct urequest *);
+        if (rq->type == UREQUEST_SINK_LATENCY) {
+            /* the tracer of C12: nobody answers it before the plan says so */
+            if (s->nlodged < 8)
+                s->lodged[s->nlodged++] = rq;
+            else
+                req_overflow = true;
+            if (ut_dead && checking())
+                sim_violation(V_AFTER_DEAD, "%s registers a request at its output after dead", types[type].name);
+            return UBASE_ERR_NONE;
+        }
         if (provide() & 1) {
             int err = upipe_throw_provide_request(upipe, rq);
             if (!ubase_check(err))
@@ -560,8 +588,22 @@ static int sink_control(struct upipe *upipe, int command, va_list args)
         }
         return UBASE_ERR_NONE;
     }
-    case UPIPE_UNREGISTER_REQUEST:
+    case UPIPE_UNREGISTER_REQUEST: {
+        struct urequest *rq = va_arg(args, struct urequest *);
+        if (rq->type == UREQUEST_SINK_LATENCY) {
+            unsigned k = 0;
+            while (k < s->nlodged && s->lodged[k] != rq)
+                k++;
+            if (k == s->nlodged) {
+                if (checking() && !req_overflow)
+                    sim_violation(V_REQ_ROUTING, "%s unregisters a request at an output where it was not registered",
+                                  types[type].name);
+            } else {
+                s->lodged[k] = s->lodged[--s->nlodged];
+            }
+        }
         return UBASE_ERR_NONE;
+    }
     default:
         return UBASE_ERR_UNHANDLED;
     }
@@ -744,6 +786,61 @@ static void disarm(const struct sim_op *op)
 
 static uint64_t seq;
 static bool flow_def_accepted;
+
+/* C12 over the sweep's pipe types: sink-latency requests registered on the
+ * pipe under test are lodged (as they are, or through proxies) at its current
+ * output, move with set_output, go away on unregister and at the latest when
+ * the pipe dies; an answer given at the output reaches the requester. */
+#define NAREQ 3
+static struct areq {
+    struct urequest ureq;
+    bool inited, registered, travelling;
+    unsigned answers;
+    uint64_t last;
+} areqs[NAREQ];
+static uint64_t provided_last;
+static bool provided_any;
+
+static int areq_provide(struct urequest *ur, va_list args)
+{
+    struct areq *a = container_of(ur, struct areq, ureq);
+    uint64_t v = va_arg(args, uint64_t);
+    sim_ev("req_answer", (uint64_t)(a - areqs), v);
+    if (!a->registered && checking())
+        sim_violation(V_REQ_AFTER_UNREGISTER, "%s: request %d answered (value %" PRIu64 ") after it was unregistered",
+                      types[type].name, (int)(a - areqs), v);
+    a->answers++;
+    a->last = v;
+    return UBASE_ERR_NONE;
+}
+
+static void req_invariant(const char *when)
+{
+    if (!checking() || fault_fired || provider_failed || req_overflow || has_no_output || plan->cfg[CFG_PROP] != 12)
+        return;
+    /* a request seen to arrive at the output travels: it has to be at the
+     * current output, whichever that is, as long as it is registered; one that
+     * was answered on the spot (by a probe, for want of an output or of an inner
+     * pipe; by a pipe where requests end) may or may not move later */
+    unsigned lower = 0, upper = 0;
+    for (int i = 0; i < NAREQ; i++)
+        if (areqs[i].registered) {
+            upper++;
+            if (areqs[i].travelling)
+                lower++;
+        }
+    for (int k = 0; k < NSINK; k++) {
+        bool current = ut != NULL && !ut_dead && cur_out == &sinks[k].upipe;
+        unsigned lo = current ? lower : 0, hi = current ? upper : 0;
+        if (sinks[k].nlodged < lo || sinks[k].nlodged > hi) {
+            sim_violation(V_REQ_ROUTING, "%s, %s: %u sink-latency request(s) lodged at sink %d (%s), between %u and %u expected "
+                          "(%u registered on the pipe, %u of them seen travelling)", types[type].name, when, sinks[k].nlodged, k,
+                          current ? "the current output" : "not the output", lo, hi, upper, lower);
+            return;
+        }
+    }
+    SIM_PROBE("sweep_request_routing_checked");
+}
 
 #define NTYPED 7
 static struct uref *typed_def(uint64_t which, uint64_t x, int *kind_p)
@@ -1103,8 +1200,10 @@ static void do_op(const struct sim_op *op)
         if (out != NULL)
             sinks[w - 1].accepted = false;     /* has to negotiate again */
         complete_tainted = true;
-        upipe_set_output(ut, out);
-        cur_out = out;
+        if (ubase_check(upipe_set_output(ut, out)))
+            cur_out = out;
+        else
+            has_no_output = true;       /* (a sink, or an allocation failed) */
         break;
     }
     case OP_SINK_MODE:
@@ -1200,8 +1299,87 @@ static void do_op(const struct sim_op *op)
         trace_forget_events_since(n0);
         break;
     }
+    case OP_REQ_REGISTER: {
+        struct areq *a = &areqs[(uint64_t)op->a[0] % NAREQ];
+        if (a->registered)
+            break;
+        if (a->inited)
+            urequest_clean(&a->ureq);
+        unsigned lodged_before = 0;
+        for (int k = 0; k < NSINK; k++)
+            lodged_before += sinks[k].nlodged;
+        urequest_init_sink_latency(&a->ureq, areq_provide, NULL);
+        a->inited = true;
+        a->answers = 0;
+        a->registered = true;           /* (an answer may come from inside the call) */
+        unsigned before = a->answers;
+        arm(op);
+        int err = upipe_register_request(ut, &a->ureq);
+        disarm(op);
+        if (!ubase_check(err)) {
+            /* the pipe does not take requests (or an allocation failed): the
+             * requester withdraws it, as the framework's own pipes do */
+            upipe_unregister_request(ut, &a->ureq);
+            a->registered = false;
+            SIM_PROBE("sweep_request_refused");
+            break;
+        }
+        unsigned lodged_after = 0;
+        for (int k = 0; k < NSINK; k++)
+            lodged_after += sinks[k].nlodged;
+        a->travelling = lodged_after == lodged_before + 1;
+        (void)before;
+        SIM_PROBE(a->travelling ? "sweep_request_travels" : "sweep_request_answered_on_the_spot");
+        break;
+    }
+    case OP_REQ_UNREGISTER: {
+        struct areq *a = &areqs[(uint64_t)op->a[0] % NAREQ];
+        if (!a->registered)
+            break;
+        upipe_unregister_request(ut, &a->ureq);
+        a->registered = false;
+        SIM_PROBE("sweep_request_unregistered");
+        break;
+    }
+    case OP_REQ_PROVIDE: {
+        struct sink *sk = &sinks[(uint64_t)op->a[0] % NSINK];
+        uint64_t v = 1000 + (uint64_t)op->a[1] % 100000;
+        unsigned before[NAREQ];
+        for (int i = 0; i < NAREQ; i++)
+            before[i] = areqs[i].answers;
+        unsigned n = sk->nlodged;
+        struct urequest *snapshot[8];
+        memcpy(snapshot, sk->lodged, sizeof(snapshot));
+        for (unsigned k = 0; k < n; k++) {
+            /* (still lodged? an answer may make the requester unregister) */
+            bool still = false;
+            for (unsigned j = 0; j < sk->nlodged; j++)
+                still = still || sk->lodged[j] == snapshot[k];
+            if (still)
+                urequest_provide_sink_latency(snapshot[k], v);
+        }
+        if (n && checking() && !fault_fired && !provider_failed && plan->cfg[CFG_PROP] == 12 && ut != NULL &&
+            cur_out == &sk->upipe)
+            for (int i = 0; i < NAREQ; i++)
+                if (areqs[i].registered && areqs[i].travelling &&
+                    (areqs[i].answers != before[i] + 1 || areqs[i].last != v)) {
+                    sim_violation(V_REQ_ANSWER, "%s: the output answered %" PRIu64 " to the requests lodged with it, request %d "
+                                  "was called back %u time(s) (last value %" PRIu64 ")", types[type].name, v, i,
+                                  areqs[i].answers - before[i], areqs[i].last);
+                    break;
+                }
+        if (n)
+            SIM_PROBE("sweep_request_answered_by_output");
+        break;
+    }
     case OP_RELEASE: {
         complete_tainted = true;
+        /* the application lets go of its requests first, as a pipe would */
+        for (int i = 0; i < NAREQ; i++)
+            if (areqs[i].registered) {
+                upipe_unregister_request(ut, &areqs[i].ureq);
+                areqs[i].registered = false;
+            }
         struct upipe *p = ut;
         ut = NULL;
         upipe_release(p);
@@ -1259,6 +1437,16 @@ static bool run_once(void)
     cur_out = NULL;
     held_while_waiting = false;
     flow_defs_behind_held = 0;
+    for (int i = 0; i < NAREQ; i++) {
+        if (areqs[i].inited) {
+            /* (left registered by a run that was abandoned, or whose pipe
+             * died under the application's feet: nothing of it survives) */
+            areqs[i].ureq.registered = false;
+            urequest_clean(&areqs[i].ureq);
+        }
+        memset(&areqs[i], 0, sizeof(areqs[i]));
+    }
+    req_overflow = false;
     if (setjmp(run_abort)) {
         sim_alloc_disarm();
         sim_mark_nontrivial();
@@ -1293,12 +1481,23 @@ static bool run_once(void)
     } else {
         /* events thrown from inside the allocator are attributed afterwards */
         sinks[0].accepted = false;
-        upipe_set_output(ut, &sinks[0].upipe);
-        cur_out = &sinks[0].upipe;
+        cur_out = NULL;
+        has_no_output = false;
+        if (ubase_check(upipe_set_output(ut, &sinks[0].upipe)))
+            cur_out = &sinks[0].upipe;
+        else
+            has_no_output = true;
         for (int i = 0; i < plan->nops && checking(); i++) {
             cur_op = i;
             do_op(&plan->ops[i]);
+            req_invariant(op_name(plan->ops[i].code));
         }
+        if (ut != NULL)
+            for (int i = 0; i < NAREQ; i++)
+                if (areqs[i].registered) {
+                    upipe_unregister_request(ut, &areqs[i].ureq);
+                    areqs[i].registered = false;
+                }
         if (ut != NULL && checking() && plan->cfg[CFG_PROP] == 5)
             drain();
         if (ut != NULL) {
@@ -1324,6 +1523,13 @@ static bool run_once(void)
             sim_violation(V_DEAD, "%s threw dead %u times after its last reference was released and the loop ran dry",
                           types[type].name, ut_dead);
     }
+    if (checking() && ut_dead == 1 && !req_overflow)
+        for (int k = 0; k < NSINK; k++)
+            if (sinks[k].nlodged != 0) {
+                sim_violation(V_REQ_ROUTING, "%s is dead and %u sink-latency request(s) are still lodged at sink %d",
+                              types[type].name, sinks[k].nlodged, k);
+                break;
+            }
     env_teardown();
     sim_mark_nontrivial();
     sim_sig_add(1, sim_mix((uint64_t)type, sim_mix(sinks[0].inputs, sim_mix(sinks[0].flow_defs, ut_events))));
@@ -1442,7 +1648,11 @@ static void gen(const char *pr, struct sim_rng *r, struct sim_plan *p)
             else sim_plan_add(p, 0, OP_SINK_BLOCK, sim_rng_below(r, NSINK), sim_rng_chance(r, 2, 3), 0, 0, 0, 0);
             continue;
         }
-        if (p->cfg[CFG_PROP] == 20 && c >= 30 && c < 40) sim_plan_add(p, 0, c < 35 ? OP_GETTER : OP_OPTION, sim_rng_below(r, 3), sim_rng_below(r, 8), 0, 0, 0, 0);
+        if (p->cfg[CFG_PROP] == 12 && c >= 20 && c < 40) {
+            if (c < 29) sim_plan_add(p, 0, OP_REQ_REGISTER, sim_rng_below(r, NAREQ), 0, 0, 0, 0, f);
+            else if (c < 34) sim_plan_add(p, 0, OP_REQ_UNREGISTER, sim_rng_below(r, NAREQ), 0, 0, 0, 0, 0);
+            else sim_plan_add(p, 0, OP_REQ_PROVIDE, sim_rng_below(r, NSINK), sim_rng_below(r, 100000), 0, 0, 0, 0);
+        } else if (p->cfg[CFG_PROP] == 20 && c >= 30 && c < 40) sim_plan_add(p, 0, c < 35 ? OP_GETTER : OP_OPTION, sim_rng_below(r, 3), sim_rng_below(r, 8), 0, 0, 0, 0);
         else if (c < 40) sim_plan_add(p, 0, OP_INPUT, sim_rng_below(r, 200), sim_rng_below(r, 512), sim_rng_below(r, 64), sim_rng_below(r, 4), 0, f);
         else if (c < 52) sim_plan_add(p, 0, OP_FLOW_DEF, sim_rng_below(r, NDEFS), sim_rng_below(r, 64), 0, 0, 0, f);
         else if (c < 64) sim_plan_add(p, 0, OP_RUN, sim_rng_below(r, 16), 0, 0, 0, 0, 0);
@@ -1458,7 +1668,7 @@ static void gen(const char *pr, struct sim_rng *r, struct sim_plan *p)
     }
 }
 
-static const char *const props[] = { "C01", "C04", "C05", "C20", NULL };
+static const char *const props[] = { "C01", "C04", "C05", "C20", "C12", NULL };
 const struct sim_engine sim_engine = {
     .name = "esweep", .props = props, .gen = gen, .run = run,
     .class_name = class_name, .op_name = op_name,
